@@ -555,6 +555,26 @@ fn main() {
         }
     }
 
+    // ---- B+'. user attribute packets written by hand from RFC 9580 5.12: image attributes with the version 1 JPEG header, a
+    //           version 1 header of an unknown format, a header of an unknown version (lengths 3, 4, 9), an unknown attribute
+    //           type: what the library accepts it writes back octet for octet, with a truthful length
+    {
+        let sub = |typ: u8, body: &[u8]| -> Vec<u8> { let mut v = Vec::new(); let n = body.len() + 1; if n < 192 { v.push(n as u8); } else { v.push(((n - 192) >> 8) as u8 + 192); v.push(((n - 192) & 0xff) as u8); } v.push(typ); v.extend_from_slice(body); v };
+        let mut cases: Vec<(&str, Vec<u8>)> = Vec::new();
+        let img = [0xffu8, 0xd8, 0xff, 0xe0, 1, 2, 3];
+        cases.push(("jpeg-v1", sub(1, &[&[0x10u8, 0x00, 0x01, 0x01][..], &[0u8; 12][..], &img[..]].concat())));
+        cases.push(("v1-unknown-format", sub(1, &[&[0x08u8, 0x00, 0x01, 0x07, 9, 9, 9, 9][..], &img[..]].concat())));
+        cases.push(("v1-unknown-format-bare", sub(1, &[&[0x04u8, 0x00, 0x01, 0x07][..], &img[..]].concat())));
+        for (n, hl) in [("unknown-version-3", 3u8), ("unknown-version-4", 4), ("unknown-version-9", 9)] { let mut h = vec![hl, 0x00, 0x02]; h.extend((3..hl).map(|i| 0xa0 + i)); cases.push((n, sub(1, &[&h[..], &img[..]].concat()))); }
+        cases.push(("unknown-attribute-type", sub(100, &[1, 2, 3, 4, 5])));
+        for (name, body) in cases {
+            let mut pkt = vec![0xC0 | 17]; pkt.push(body.len() as u8); pkt.extend_from_slice(&body);
+            let r = guarded(|| match PacketParser::new(&pkt[..]).next() { Some(Ok(p)) => { let w = p.to_bytes().ok(); let wl = p.write_len(); Some((w, wl)) } _ => None });
+            let (imp, pred) = match r { Ok(Some((Some(w), wl))) => (format!("written={} announced={} same-octets={}", hx(&w), wl, (w == pkt) as u8), w == pkt && wl == pkt.len()), Ok(Some((None, _))) => ("accepted but not writable".to_string(), false), Ok(None) => ("not accepted".to_string(), true), Err(p) => (p, false) };
+            cx.out.case("", &[], &["handmade-attribute".into(), name.into(), hx(&pkt)], &imp, Some(pred), &format!("handmade-attribute-{}", if imp.starts_with("not accepted") { "not-accepted" } else { "accepted" }));
+        }
+    }
+
     // ---- C. fixtures
     let mut files = Vec::new();
     fn walk(p: &std::path::Path, out: &mut Vec<std::path::PathBuf>) { if let Ok(rd) = std::fs::read_dir(p) { let mut v: Vec<_> = rd.flatten().map(|e| e.path()).collect(); v.sort(); for p in v { if p.is_dir() { walk(&p, out); } else { out.push(p); } } } }
